@@ -202,6 +202,7 @@ pub struct Inner {
     pct_changes: Vec<u64>,
     finished: bool,
     time_jumps: u64,
+    kernel_async: u64,
     extra: Vec<(String, String)>,
     replay_out: Option<std::ffi::CString>,
     argv: Vec<String>,
@@ -294,6 +295,37 @@ impl Inner {
         for t in &self.th {
             if let St::Blocked(_) = t.st {
                 next = next.min(t.wake_at);
+            }
+        }
+        if self.cfg.io_always && (next == NO_DEADLINE || next > self.now + 50_000_000) {
+            // the real kernel is the one component the engine does not own: before a long
+            // idle jump (or a hung verdict) give it a moment of REAL time to deliver events it
+            // produces asynchronously (timers inside the TCP stack). Counted, never an alarm
+            let fds: Vec<(usize, i32)> = self
+                .th
+                .iter()
+                .enumerate()
+                .filter_map(|(i, t)| match t.st {
+                    St::Blocked(Why::Epoll(fd)) => Some((i, fd)),
+                    _ => None,
+                })
+                .collect();
+            if !fds.is_empty() {
+                let mut pfds: Vec<libc::pollfd> = fds.iter().map(|f| libc::pollfd { fd: f.1, events: libc::POLLIN, revents: 0 }).collect();
+                let r = unsafe { libc::poll(pfds.as_mut_ptr(), pfds.len() as libc::nfds_t, 250) };
+                if r > 0 {
+                    let mut any = false;
+                    for (k, p) in pfds.iter().enumerate() {
+                        if p.revents & libc::POLLIN != 0 {
+                            self.make_runnable(fds[k].0, true);
+                            any = true;
+                        }
+                    }
+                    if any {
+                        self.kernel_async += 1;
+                        return true;
+                    }
+                }
             }
         }
         if next == NO_DEADLINE {
@@ -422,7 +454,7 @@ impl Inner {
                 let _ = write!(s, "\"{}\":{}", FAULT_NAMES[k], self.fault_counts[k]);
             }
         }
-        let _ = write!(s, "}},\"alloc_mode\":{},\"alloc_reused\":{}", crate::alloc::MODE.load(Ordering::Relaxed), crate::alloc::REUSED.load(Ordering::Relaxed));
+        let _ = write!(s, "}},\"kernel_async\":{},\"alloc_mode\":{},\"alloc_reused\":{}", self.kernel_async, crate::alloc::MODE.load(Ordering::Relaxed), crate::alloc::REUSED.load(Ordering::Relaxed));
         let _ = s.write_str(",\"probes\":{");
         for (i, (n, c)) in self.probes.iter().enumerate() {
             if i > 0 {
@@ -1185,6 +1217,7 @@ pub fn init(cfg: Cfg) {
         pct_changes,
         finished: false,
         time_jumps: 0,
+        kernel_async: 0,
         extra: Vec::new(),
         replay_out: std::env::var("VERIF_REPLAY_OUT").ok().filter(|p| !p.is_empty()).and_then(|p| std::ffi::CString::new(p).ok()),
         argv: std::env::args().skip(1).collect(),
